@@ -80,6 +80,20 @@ def gen_conv_nth(r, tier):
     return sc
 
 
+def gen_conv_exclude(r, tier):
+    """Directed: an input of full chunks in which matches are rare (the per-chunk result cache engages),
+    a plain cacheable query, then exclusions of the current item."""
+    nA = r.choice([200, 300] + ([1000] if tier != 'quick' else []))
+    rare = ['foo', 'Foo', 'fob', 'ofo', 'foobar', 'barfoo', 'ba', 'bar x', 'oof']
+    lines = []
+    for _ in range(nA):
+        lines.append(r.choice(rare) + r.choice(['', ' 1', '/y']) if r.random() < 0.08 else '%s%d' % (r.choice(['x', 'yz', 'q-', 'z z']), r.randrange(1000)))
+    sc = dict(A=lines, B=gen_lines(r, 20), exact=False, sort=True, tac=False, nth='-', bursts=[(nA, 0)], excludes=r.choice([1, 2, 3]))
+    q = r.choice(['foo', 'fo', 'ba', 'bar', 'oo'])
+    sc['steps'] = [(50, ('change-query', q))] + ([(80, ('change-query', q[:-1])), (80, ('change-query', q))] if r.random() < 0.5 else [])
+    return sc
+
+
 def enc_step(s):
     d, (name, arg) = s
     return '%d:%s%s' % (d, name, '' if arg is None else '=' + ('.'.join(str(x) for x in arg.encode()) or 'e'))
@@ -211,7 +225,7 @@ def drv_conv(tier, seed, ctx):
         n = 10 if tier == 'quick' else 150
         scs = [gen_conv_nth(r, tier) for _ in range(n)]
     else:
-        scs = [gen_conv_nth(r, tier) if i < 4 or i % 12 == 0 else gen_conv(r, tier) for i in range(n)]
+        scs = [gen_conv_nth(r, tier) if i < 4 or i % 12 == 0 else gen_conv_exclude(r, tier) if i < 8 or i % 12 == 1 else gen_conv(r, tier) for i in range(n)]
     notes = []
     with ThreadPoolExecutor(max_workers=8) as ex:
         outs = list(ex.map(lambda sc: _work(ctx, sc), scs))
